@@ -45,6 +45,9 @@ type C19Case struct {
 	// GlobalFirst: the first --credentials entry is the catch-all *:* (and no entry names the origin), so that it is
 	// the one selected for the exchanges
 	GlobalFirst bool `json:"global_first,omitempty"`
+	// DeadUpstream (HTTP upstream only): nothing listens where --proxy points. Every exchange fails at the first hop; the
+	// start-up log (taken before any exchange), /configz and the error responses are examined
+	DeadUpstream bool `json:"dead_upstream,omitempty"`
 	// Clash (needs CredPasses): one more --credentials entry, well-formed, for the same target as entry ClashAt and with a
 	// password of its own (ClashPass). The binary refuses such a list; what it says while refusing is start-up log.
 	Clash     bool   `json:"clash,omitempty"`
@@ -140,6 +143,9 @@ func genC19(t *rapid.T) C19Case {
 	}
 	if c.ProxyPass == "" && len(c.CredPasses) >= 2 {
 		c.ProxyPlain = rapid.Bool().Draw(t, "proxyplain")
+	}
+	if ((c.ProxyPass != "" && c.ProxyScheme == "") || c.ProxyPlain) && !c.Clash && rapid.IntRange(0, 3).Draw(t, "deadupstream") == 0 {
+		c.DeadUpstream = true
 	}
 	if rapid.IntRange(0, 2).Draw(t, "withextra") != 0 {
 		c.Extra = rapid.SliceOfNDistinct(rapid.SampledFrom(c19ExtraKinds), 1, 4, rapid.ID[string]).Draw(t, "extra")
@@ -340,17 +346,21 @@ func runC19(c C19Case) (fails []vstat.Failure) {
 		add("api-basic-auth", "apiuser:"+c.APIAuth)
 		secrets = append(secrets, secretSpec{"api-basic-auth", "apiuser", c.APIAuth, false})
 	}
+	upAddr := e.upstream.Addr
+	if c.DeadUpstream {
+		upAddr = FreeAddr(e.upstream.Host)
+	}
 	if c.ProxyPass != "" {
 		if c.ProxyScheme == "socks5" {
 			add("proxy", "socks5://pxuser:"+c.ProxyPass+"@"+e.socks.Addr)
 		} else {
-			add("proxy", "http://pxuser:"+c.ProxyPass+"@"+e.upstream.Addr)
+			add("proxy", "http://pxuser:"+c.ProxyPass+"@"+upAddr)
 		}
 		secrets = append(secrets, secretSpec{"proxy", "pxuser", c.ProxyPass, false})
 	}
 	upstreamOn := c.ProxyPass != ""
 	if c.ProxyPlain && c.ProxyPass == "" && len(c.CredPasses) >= 2 {
-		add("proxy", "http://"+e.upstream.Addr)
+		add("proxy", "http://"+upAddr)
 		upstreamOn = true
 	}
 	var creds []string
@@ -561,6 +571,53 @@ func runC19(c C19Case) (fails []vstat.Failure) {
 		sb.Write(m.Body)
 		capture(what, sb.String())
 		return m.Status
+	}
+	if c.DeadUpstream && upstreamOn {
+		time.Sleep(100 * time.Millisecond)
+		capture("stdout (start-up, before any exchange)", stdout.String())
+		capture("stderr (start-up, before any exchange)", stderr.String())
+		if logPath != "" {
+			if b, err := os.ReadFile(logPath); err == nil {
+				capture("log file (start-up, before any exchange)", string(b))
+			}
+		}
+		// what the binary tells the client when its upstream cannot be reached
+		s1 := exchange("error response to a request whose upstream proxy is unreachable", e.origin.Addr, true)
+		st.Class(fmt.Sprintf("dead-upstream-get-%d", s1))
+		if conn, br, err := dialProxy(); err == nil {
+			hdr := ""
+			if c.BasicAuth != "" {
+				hdr = "Proxy-Authorization: Basic " + base64.StdEncoding.EncodeToString([]byte("bauser:"+c.BasicAuth)) + "\r\n"
+			}
+			fmt.Fprintf(conn, "CONNECT %s HTTP/1.1\r\nHost: %s\r\n%s\r\n", e.origin.Addr, e.origin.Addr, hdr)
+			if m, err := ReadResponse(br, "CONNECT"); err == nil && m.Status != 200 {
+				var sb strings.Builder
+				sb.WriteString(m.StartLine + "\n")
+				for _, f := range m.Fields {
+					sb.WriteString(f.Name + ": " + f.Value + "\n")
+				}
+				sb.Write(m.Body)
+				capture(fmt.Sprintf("error response (%d) to a CONNECT whose upstream proxy is unreachable", m.Status), sb.String())
+			}
+			conn.Close()
+		}
+		if tc, err := Dial(apiAddr); err == nil {
+			tc.SetDeadline(time.Now().Add(5 * time.Second))
+			hdr := ""
+			if c.APIAuth != "" {
+				hdr = "Authorization: Basic " + base64.StdEncoding.EncodeToString([]byte("apiuser:"+c.APIAuth)) + "\r\n"
+			}
+			fmt.Fprintf(tc, "GET /configz HTTP/1.1\r\nHost: %s\r\n%sConnection: close\r\n\r\n", apiAddr, hdr)
+			if m, err := ReadResponse(bufio.NewReader(tc), "GET"); err == nil {
+				capture(fmt.Sprintf("/configz (status %d)", m.Status), string(m.Body))
+			}
+			tc.Close()
+		}
+		stop()
+		for _, cp := range captured {
+			fails = append(fails, scanSecrets("C19:leak", cp.what, cp.text, secrets)...)
+		}
+		return fails
 	}
 	// successful exchange (through the upstream proxy if configured), with site credentials where they match
 	if s := exchange("reply to an authenticated request", e.origin.Addr, true); s != 200 {
